@@ -14,7 +14,7 @@ import numpy as onp
 
 NC = 4  # number of scalar coefficients packed behind b
 
-FAMILIES = ("quad", "convex_nq", "quartic", "rosen", "wells", "rankdef", "flat_exp", "flat_rat", "barrier", "cos")
+FAMILIES = ("quad", "convex_nq", "quartic", "rosen", "wells", "rankdef", "flat_exp", "flat_rat", "barrier", "cos", "valley")
 CONVEX = ("quad", "convex_nq")
 FLAT = ("flat_exp", "flat_rat")
 # families whose value is finite for every finite x (mathematically); 'barrier' is NaN outside |x_i| < 2
@@ -64,6 +64,12 @@ def family(name):
         A, b, c = unpack(x, p)
         return np.sum(c[0] * 100.0 * (x[1:] - x[:-1] ** 2) ** 2 + (1.0 - x[:-1]) ** 2) + 0.5 * c[1] * (x[-1] - 1.0) ** 2
 
+    def valley(x, p):
+        # curved valley (Rosenbrock type) under a dead load b; the valley stiffness is scaled by the DESIGN slot p[2][0]
+        A, b, c = unpack(x, p)
+        k = p[2][0]
+        return np.sum(k * c[0] * 100.0 * (x[1:] - x[:-1] ** 2) ** 2 + (1.0 - x[:-1]) ** 2) + 0.5 * c[1] * (x[-1] - 1.0) ** 2 - b @ x
+
     def wells(x, p):
         A, b, c = unpack(x, p)
         return np.sum((x ** 2 - 1.0) ** 2) + 0.1 * x @ (A @ x)
@@ -90,7 +96,7 @@ def family(name):
         A, b, c = unpack(x, p)
         return 0.5 * x @ (A @ x) - b @ x + c[0] * np.sum(np.cos(3.0 * x))
 
-    for f in (quad, convex_nq, quartic, rosen, wells, rankdef, flat_exp, flat_rat, barrier, cos):
+    for f in (quad, convex_nq, quartic, rosen, wells, rankdef, flat_exp, flat_rat, barrier, cos, valley):
         _fam_cache[f.__name__] = f
     return _fam_cache[name]
 
